@@ -11,6 +11,8 @@
 //                with or without imported units, EVERY partition of those entities into shared import-source objects: 21 models)
 //   twins-api / twins-parsed : the twins grid (content-equal sibling components / variables / units / resets with equivalences,
 //                resets and shared import sources attached to the first, the later or both twins: 122 models)
+//   eqpos-api / eqpos-parsed : the equivalence-position grid (all ordered forests on <= 5 components of depth <= 3 x which
+//                components bear a variable x which pair of them is connected / all pairs), oracle before mutation on every entity
 //   foreign-eq : models one of whose variables is equivalent to a variable outside the model (orphan / orphan component /
 //                other model): carve-out of the semantic oracle (what a copy of such a link should be is not stated); judged:
 //                no crash, and the clone's equivalences among its OWN variables are exactly the original's.
@@ -312,9 +314,83 @@ static json twinSpec(uint64_t i)
     m["eqs"].push_back({{"a", {0, 0}}, {"b", {1, 0}}, {"mid", "map1"}, {"cid", "con1"}});
     return m;
 }
-static int g_grid = 0; // 0: the 8-dimension model grid, 1: the reset-link grid, 2: the import-sharing grid, 3: the twins grid
-static json specOf(uint64_t i) { return g_grid == 3 ? twinSpec(i) : g_grid == 2 ? importGridSpec(idimsAt(i)) : g_grid ? resetGridSpec(rdimsAt(i)) : modelSpec(dimsAt(i)); }
-static json whereOf(uint64_t i) { return g_grid == 3 ? twinDims(i) : g_grid == 2 ? idimsJson(idimsAt(i)) : g_grid ? rdimsJson(rdimsAt(i)) : dimsJson(dimsAt(i)); }
+// ---- the equivalence-position grid: every ordered forest on <= 5 components of depth <= 3, every subset of the components
+// bearing a variable (the others are pure containers or empty leaves), every PAIR of variable-bearing positions connected by one
+// equivalence with mapping + connection id (sibling, parent-child, cousins below a variable-less container, different depths, ...)
+// and, per (forest, subset), all pairs connected at once. Judged with the oracle before mutation on every entity (model, every
+// component = every ancestor level, variables).
+struct EqPos { std::string dyck; unsigned mask; int a, b; }; // a, b: preorder numbers of the two ends; a == -1: all pairs
+static std::vector<EqPos> &eqPosList()
+{
+    static std::vector<EqPos> list;
+    if (!list.empty()) return list;
+    for (int n = 2; n <= 5; ++n) {
+        std::vector<std::string> words;
+        std::function<void(std::string, int, int, int)> gen = [&](std::string w, int open, int close, int depth) {
+            if (int(w.size()) == 2 * n) { words.push_back(w); return; }
+            if (open < n && depth < 3) gen(w + "(", open + 1, close, depth + 1);
+            if (close < open) gen(w + ")", open, close + 1, depth - 1);
+        };
+        gen("", 0, 0, 0);
+        for (auto &w : words)
+            for (unsigned mask = 0; mask < (1u << n); ++mask) {
+                std::vector<int> bearing;
+                for (int k = 0; k < n; ++k) if (mask & (1u << k)) bearing.push_back(k);
+                if (bearing.size() < 2) continue;
+                for (size_t x = 0; x < bearing.size(); ++x)
+                    for (size_t y = x + 1; y < bearing.size(); ++y) list.push_back({w, mask, bearing[x], bearing[y]});
+                if (bearing.size() > 2) list.push_back({w, mask, -1, -1});
+            }
+    }
+    return list;
+}
+static uint64_t eqPosCount() { return eqPosList().size(); }
+static json eqPosSpec(uint64_t i, json *dims = nullptr)
+{
+    const EqPos &e = eqPosList().at(i);
+    // build the forest from the Dyck word; remember the index path of every component (preorder number -> path)
+    json m = {{"k", "model"}, {"name", "m"}, {"id", "m_id"}, {"eid", "m_eid"}, {"units", json::array()}, {"components", json::array()}, {"eqs", json::array()}};
+    std::vector<json::json_pointer> stack = {json::json_pointer("/components")};
+    std::vector<std::vector<int>> pathStack = {{}};
+    std::vector<std::vector<int>> paths;
+    std::string shape;
+    int number = 0;
+    for (char ch : e.dyck) {
+        if (ch == '(') {
+            std::string name = "c" + std::to_string(number);
+            bool bearing = e.mask & (1u << number);
+            json c = {{"k", "comp"}, {"name", name}, {"id", name + "_id"}, {"eid", name + "_eid"}, {"math", ""}, {"variables", json::array()}, {"resets", json::array()}, {"components", json::array()}};
+            if (bearing) c["variables"].push_back({{"k", "var"}, {"name", "v"}, {"id", name + "_v"}, {"iv", ""}, {"iface", "public_and_private"}, {"u", {{"k", "units"}, {"name", "second"}}}});
+            json &siblings = m[stack.back()];
+            int idx = int(siblings.size());
+            siblings.push_back(c);
+            std::vector<int> p = pathStack.back();
+            p.push_back(idx);
+            paths.push_back(p);
+            stack.push_back(stack.back() / size_t(idx) / "components");
+            pathStack.push_back(p);
+            shape += bearing ? "V(" : "_(";
+            ++number;
+        } else {
+            stack.pop_back();
+            pathStack.pop_back();
+            shape += ")";
+        }
+    }
+    auto varPath = [&](int k) { json p = json::array(); for (int x : paths[size_t(k)]) p.push_back(x); p.push_back(0); return p; };
+    auto link = [&](int a, int b) {
+        std::string t = std::to_string(a) + "_" + std::to_string(b);
+        m["eqs"].push_back({{"a", varPath(a)}, {"b", varPath(b)}, {"mid", "map_" + t}, {"cid", "con_" + t}});
+    };
+    if (e.a >= 0) link(e.a, e.b);
+    else for (int a = 0; a < number; ++a) for (int b = a + 1; b < number; ++b) if ((e.mask & (1u << a)) && (e.mask & (1u << b))) link(a, b);
+    if (dims) *dims = {{"grid", "equivalence-positions"}, {"forest", shape}, {"legend", "V( = component with a variable, _( = component without variables, preorder numbering from 0"},
+                       {"connected", e.a >= 0 ? json::array({e.a, e.b}) : json("all pairs of variable-bearing components")}};
+    return m;
+}
+static int g_grid = 0; // 0: the 8-dimension model grid, 1: the reset-link grid, 2: the import-sharing grid, 3: the twins grid, 4: the equivalence-position grid
+static json specOf(uint64_t i) { return g_grid == 4 ? eqPosSpec(i) : g_grid == 3 ? twinSpec(i) : g_grid == 2 ? importGridSpec(idimsAt(i)) : g_grid ? resetGridSpec(rdimsAt(i)) : modelSpec(dimsAt(i)); }
+static json whereOf(uint64_t i) { if (g_grid == 4) { json d; eqPosSpec(i, &d); return d; } return g_grid == 3 ? twinDims(i) : g_grid == 2 ? idimsJson(idimsAt(i)) : g_grid ? rdimsJson(rdimsAt(i)) : dimsJson(dimsAt(i)); }
 
 // ------------------------------------------------------------------------------------------------ worlds
 static PrinterPtr g_printer;
@@ -1087,6 +1163,10 @@ int main(int argc, char **argv)
          [](uint64_t i) { g_grid = 3; json j = {{"dims", whereOf(i)}, {"origin", "api"}, {"spec", specOf(i)}}; g_grid = 0; return j; }},
         {"twins-parsed", twinGridCount, [](uint64_t i, Ctx &c) { g_grid = 3; runClone(i, true, c); g_grid = 0; },
          [](uint64_t i) { g_grid = 3; Source s = sourceAt(i, true, nullptr); json j = {{"dims", whereOf(i)}, {"origin", "printed-then-parsed"}, {"document", s.text}}; g_grid = 0; return j; }},
+        {"eqpos-api", eqPosCount, [](uint64_t i, Ctx &c) { g_grid = 4; runClone(i, false, c, false); g_grid = 0; },
+         [](uint64_t i) { g_grid = 4; json j = {{"dims", whereOf(i)}, {"origin", "api"}, {"mutations", false}, {"spec", specOf(i)}}; g_grid = 0; return j; }},
+        {"eqpos-parsed", eqPosCount, [](uint64_t i, Ctx &c) { g_grid = 4; runClone(i, true, c, false); g_grid = 0; },
+         [](uint64_t i) { g_grid = 4; Source s = sourceAt(i, true, nullptr); json j = {{"dims", whereOf(i)}, {"origin", "printed-then-parsed"}, {"mutations", false}, {"document", s.text}}; g_grid = 0; return j; }},
         {"foreign-eq", foreignCount, runForeign, [](uint64_t i) { Radix r(i); int sh = int(r.take(4)), o = int(r.take(3)), in = int(r.take(2)); return json{{"shape", sh}, {"outside", o}, {"internal", in}}; }},
     };
     return harnessMain(argc, argv, fs);
